@@ -311,7 +311,7 @@ def write_evidence(pid, tier, outcomes, wall, violations, extra_notes):
     prop = PROPS[pid]
     evaluations = 0
     hashes = set()
-    anon_distinct = 0
+    anon_by_driver = {}
     classes, counters, samples, stage_summ = {}, {}, [], []
     exhaustive_parts = []
     for o in outcomes:
@@ -322,7 +322,8 @@ def write_evidence(pid, tier, outcomes, wall, violations, extra_notes):
             if hs is not None and len(hs) == int(st.get("distinct_nontrivial", 0)):
                 hashes.update("%s:%s" % (o.driver, h) for h in hs)
             else:
-                anon_distinct += int(st.get("distinct_nontrivial", 0))
+                # hash list capped: the union with other processes is unknown, count conservatively (maximum, not sum)
+                anon_by_driver[o.driver] = max(anon_by_driver.get(o.driver, 0), int(st.get("distinct_nontrivial", 0)))
             for k, v in st.get("classes", {}).items():
                 classes[k] = classes.get(k, 0) + v
             for k, v in st.get("counters", {}).items():
@@ -334,7 +335,10 @@ def write_evidence(pid, tier, outcomes, wall, violations, extra_notes):
                 exhaustive_parts.append({"stage": o.name, "evaluations": int(st.get("evaluations", 0)), "bound": st.get("note", "")})
         evaluations += ev
         stage_summ.append({"stage": o.name, "evaluations": ev, "wall_s": round(o.wall, 2), "notes": o.notes})
-    distinct = len(hashes) + anon_distinct
+    distinct = len(hashes)
+    for drv, n in anon_by_driver.items():
+        # conservative: processes with capped hash lists may overlap with everything else of the same driver
+        distinct = max(distinct, n) if not any(h.startswith(drv + ":") for h in hashes) else max(distinct, len([h for h in hashes if not h.startswith(drv + ":")]) + max(n, len([h for h in hashes if h.startswith(drv + ":")])))
     ev = {
         "property_id": pid,
         "tier": tier,
